@@ -11,11 +11,13 @@ deriving instance FromJson for Var
 deriving instance FromJson for Ev
 deriving instance FromJson for BinOp
 deriving instance FromJson for CmpOp
+deriving instance FromJson for Recv
 deriving instance FromJson for Expr
 deriving instance FromJson for Cond
 deriving instance FromJson for Tgt
 deriving instance FromJson for Stmt
 deriving instance FromJson for Fun
+deriving instance FromJson for Cls
 deriving instance FromJson for TStmt
 deriving instance FromJson for Prog
 
@@ -27,6 +29,7 @@ structure MiniCase where
 structure TraceCase where
   evs : List Ev
   crits : List Nat
+  retNone : Option (List Nat)     -- positions of `return None` steps (for the statement path)
   deriving FromJson
 
 inductive Case where
@@ -41,6 +44,7 @@ def runTrace (c : TraceCase) : Json :=
     ("slices", toJson (c.crits.map (fun k => sliceBack c.evs k))),
     ("lines", toJson (c.crits.map (fun k => sortDedup (sliceLines c.evs k)))),
     ("checked", toJson (sortDedup (checkedLines c.evs c.crits))),
+    ("schecked", toJson (sortDedup (stmtCheckedLines c.evs (fun q => (c.retNone.getD []).contains q) c.crits))),
     ("executed", toJson (sortDedup (executedLines c.evs)))]
 
 def runMini (c : MiniCase) : Json :=
@@ -55,7 +59,10 @@ def runMini (c : MiniCase) : Json :=
       ("executed", toJson (sortDedup (executedLines tr))),
       ("slices", toJson (r.crits.map (fun k => sortDedup (sliceLines tr k)))),
       ("aslices", toJson (r.acrits.map (fun k => sortDedup (sliceLines tr k)))),
-      ("checked", toJson (sortDedup (checkedLines tr r.crits))),
+      -- compute_statement_checked_lines: per-statement cleansing of the trailing `return None`, then union
+      ("checked", toJson (sortDedup (stmtCheckedLines tr (fun q => r.retNone.contains q) r.crits))),
+      ("stmtlines", toJson (r.crits.map (fun k => sortDedup (stmtLines tr (fun q => r.retNone.contains q) k)))),
+      ("cleansed", toJson (r.crits.map (fun k => cleanseLine tr (fun q => r.retNone.contains q) (sliceBack tr k)))),
       ("achecked", toJson (sortDedup (checkedLines tr r.acrits))),
       -- the same criteria sliced with locals keyed by code object instead of frame (pynguin's keying)
       ("cslices", toJson (r.crits.map (fun k => sortDedup (sliceLines keyed k)))),
@@ -67,6 +74,9 @@ def runMini (c : MiniCase) : Json :=
         | none => Json.null),
       ("waslices", match run c.prog c.fuel false with
         | some w => toJson (w.acrits.map (fun k => sortDedup (sliceLines w.trace k)))
+        | none => Json.null),
+      ("wchecked", match run c.prog c.fuel false with
+        | some w => toJson (sortDedup (stmtCheckedLines w.trace (fun q => w.retNone.contains q) w.crits))
         | none => Json.null)]
 
 def runCase : Case → Json
